@@ -46,11 +46,11 @@ REPR = marks.REPR
 
 
 def check(ctx):
-    marks.check_dispatch(ctx)
-    marks.check_exhaustive(ctx)
-    marks.check_row_aligned(ctx)
-    marks.check_hl_wrap(ctx)
-    marks.check_len_aligned(ctx)
+    ctx.run(marks.check_dispatch)
+    ctx.run(marks.check_exhaustive)
+    ctx.run(marks.check_row_aligned)
+    ctx.run(marks.check_hl_wrap)
+    ctx.run(marks.check_len_aligned)
 
 
 def variants(program):
